@@ -10,7 +10,7 @@ from vlib.harness import PropertyViolation, run_property
 PROPERTY_ID = "C19"
 LEVEL = "fault_enumeration"
 RULE = (
-    "Hypothesis generates (shape, attached?, initial cells, history of 1..4 bulk edits through set_via_fn / set_via_gen with generated notes, "
+    "Hypothesis generates (shape, attached? (to a project holding 0-4 modules of mixed types that may have been saved before and between the edits), initial cells, history of 1..4 bulk edits through set_via_fn / set_via_gen with generated notes, "
     "generated yield subsets and orders, optional scribbling on the scratch array); for the last edit of every history the failure position is "
     "enumerated completely (callable raises at call index f for every f in 0..cells; generator raises after yield j for every j in 0..yields) "
     "when the pattern has <= 256 cells (otherwise ends, middle and a stride). distinct = (history, failure position); histories may also fail half-way at generated points before continuing on the same object, and every enumerated failure of the last edit is followed by a further successful edit; non-trivial = failure at "
@@ -21,7 +21,7 @@ ASSUMPTIONS = [
     "after a failed edit the contents (cell tuples, raw_data) are claimed unchanged; identity of the internal list is not claimed",
 ]
 REQUIRED_LABELS = {
-    "quick": ["fn_success", "gen_success", "fn_fail_interior", "gen_fail_interior", "attached", "detached", "second_edit", "scribble", "failure_mid_history", "follow_up_after_failure"],
+    "quick": ["fn_success", "gen_success", "fn_fail_interior", "gen_fail_interior", "attached", "detached", "second_edit", "scribble", "failure_mid_history", "follow_up_after_failure", "project_saved_before_edit"],
     "thorough": ["fn_success", "gen_success", "fn_fail_interior", "gen_fail_interior", "attached", "detached", "second_edit", "scribble"],
 }
 
@@ -61,7 +61,17 @@ def case_strategy(draw, max_tracks, max_lines):
             edits.append({"kind": "gen", "yields": [[i, c] for i, c in zip(idxs, cells)], "scribble": draw(st.booleans()), "fail_at": draw(st.one_of(st.none(), st.none(), st.integers(0, k)))})
     kf = draw(st.integers(0, min(ncells, 4)))
     follow = {"kind": "gen", "yields": [[draw(st.integers(0, ncells - 1)), draw(cell)] for _ in range(kf)], "scribble": False, "fail_at": None}
-    return {"tracks": tracks, "lines": lines, "attached": draw(st.booleans()), "modules": draw(st.integers(0, 4)), "initial": initial, "edits": edits, "follow_up": follow}
+    return {
+        "tracks": tracks,
+        "lines": lines,
+        "attached": draw(st.booleans()),
+        "modules": draw(st.integers(0, 4)),
+        "module_types": draw(st.lists(st.sampled_from(["Amplifier", "MultiSynth", "MultiCtl", "WaveShaper", "SpectraVoice", "Fmx", "MetaModule", "Sampler", "Generator"]), min_size=4, max_size=4)),
+        "save_first": draw(st.booleans()),
+        "initial": initial,
+        "edits": edits,
+        "follow_up": follow,
+    }
 
 
 class Boom(Exception):
@@ -146,12 +156,15 @@ def build(case):
     project = None
     if case["attached"]:
         project = Project()
-        for _ in range(case["modules"]):
-            project.new_module(m.Amplifier)
+        types = case.get("module_types") or ["Amplifier"] * 4
+        for i in range(case["modules"]):
+            project.new_module(getattr(m, types[i % len(types)]))
         project.attach_pattern(pattern)
     for idx, c in case["initial"]:
         n = pattern.data[idx // case["tracks"]][idx % case["tracks"]]
         n.note, n.vel, n.module, n.ctl, n.val = NOTECMD(c[0]), c[1], c[2], c[3], c[4]
+    if project is not None and case.get("save_first"):
+        project.read()  # the project has been saved (and will be saved again) around the bulk edits
     return pattern, project
 
 
@@ -167,6 +180,8 @@ def run_case(ctx, case, only_fail_at=None):
     labels = set()
     ncells = case["tracks"] * case["lines"]
     labels.add("attached" if case["attached"] else "detached")
+    if case["attached"] and case.get("save_first"):
+        labels.add("project_saved_before_edit")
     edits = case["edits"]
     last = edits[-1]
     # failure positions for the last edit: complete when the pattern is small
@@ -198,6 +213,8 @@ def run_case(ctx, case, only_fail_at=None):
                 )
             check_ownership(pattern, project, "after edit %d (%s)" % (ei, e["kind"]))
             labels.add("second_edit")
+            if project is not None and case.get("save_first") and ei % 2 == 0:
+                project.read()
         before_cells = cells_of(pattern)
         before_raw = pattern.raw_data
         if fail_at is None:
